@@ -237,7 +237,7 @@ func (ex *Exec) convert(fr *Frame, from, to types.Type, x Value, pos token.Pos) 
 		case xv.sort == SBV && tb.Info()&types.IsString != 0:
 			// rune conversion
 			if !xv.conc {
-				panic(unsupported{"symbolic int->string conversion"})
+				return ex.runeStringSym(bvResize(xv, 64, isSigned(from)))
 			}
 			return StrV{s: runeString(xv.sval(), isSigned(from), xv.cv)}
 		case xv.sort == SBool && tb.Info()&types.IsBoolean != 0:
@@ -649,3 +649,26 @@ func (ex *Exec) sameKey(a, b Value) bool {
 }
 
 func itoa(i int) string { return strconv.Itoa(i) }
+
+// runeStringSym is string(rune) for a symbolic code point (already widened to 64 bits): UTF-8 encoding as byte
+// terms, forking on the encoding length; invalid code points give U+FFFD.
+func (ex *Exec) runeStringSym(v *Term) Value {
+	c := func(x uint64) *Term { return bvConst(64, x) }
+	valid := tAnd(bvUle(v, c(0x10FFFF)), tNot(tAnd(bvUle(c(0xD800), v), bvUle(v, c(0xDFFF)))))
+	if !ex.decide(valid) {
+		return StrV{s: "\uFFFD"}
+	}
+	b8 := func(t *Term) *Term { return bvResize(t, 8, false) }
+	ns := newSymStr(symBytes)
+	switch {
+	case ex.decide(bvUlt(v, c(0x80))):
+		ns.bytes = []*Term{b8(v)}
+	case ex.decide(bvUlt(v, c(0x800))):
+		ns.bytes = []*Term{b8(bvOr(c(0xC0), bvLShr(v, c(6)))), b8(bvOr(c(0x80), bvAnd(v, c(0x3F))))}
+	case ex.decide(bvUlt(v, c(0x10000))):
+		ns.bytes = []*Term{b8(bvOr(c(0xE0), bvLShr(v, c(12)))), b8(bvOr(c(0x80), bvAnd(bvLShr(v, c(6)), c(0x3F)))), b8(bvOr(c(0x80), bvAnd(v, c(0x3F))))}
+	default:
+		ns.bytes = []*Term{b8(bvOr(c(0xF0), bvLShr(v, c(18)))), b8(bvOr(c(0x80), bvAnd(bvLShr(v, c(12)), c(0x3F)))), b8(bvOr(c(0x80), bvAnd(bvLShr(v, c(6)), c(0x3F)))), b8(bvOr(c(0x80), bvAnd(v, c(0x3F))))}
+	}
+	return StrV{sym: ns}
+}
